@@ -297,7 +297,9 @@ def s_int(x=0):
         # condition (it would mix nonlinear reals into the index arithmetic); obligations that
         # need it take it from run.int_defs.
         run = engine()
-        k = sym.fresh_int("trunc")
+        import z3 as _z3
+        # a FUNCTION of its argument (equal arguments give equal integers, by congruence)
+        k = Num(_z3.Function("trunc", _z3.RealSort(), _z3.IntSort())(x.zr()))
         if run.feasible((x < 0).z()) and bool(x < 0):
             # negative argument: truncation toward zero is the ceiling
             run.assume(k <= 0)
